@@ -10,6 +10,7 @@ import CCT.Model.Reasons
 import CCT.Ref.Crypto
 import Std.Data.HashMap
 import CCT.Model.IntLimit
+import CCT.Model.Files
 /-!
 # Driver — line protocol between the Python harness and the executable model
 
@@ -415,6 +416,48 @@ def handle (memo : Memo) (line : String) : Memo × String :=
         | some (_, []) => (memo, "E ArgError")
         | _ => (memo, "X bad-args")
       | _ => (memo, "X bad-args")
+    | "fsops" =>
+      -- a history of operations on named files (Model/Files.lean):  P <name> <x<hex>|->   plant bytes / delete      W <name> <value>   write_metadata_to_file
+      --   L <name>   load_metadata_from_file      S <name> <seed hex>   load + sign_signable + write.    Answer: per-operation results, then every file's content.
+      let rec go (fuel : Nat) (toks : List Tok) (fs : FS) (names : List PStr) (out : List String) : Option (FS × List PStr × List String) :=
+        match fuel with
+        | 0 => none
+        | fuel + 1 =>
+          match toks with
+          | [] => some (fs, names, out.reverse)
+          | "P" :: n :: c :: r =>
+            match parseCodes n with
+            | some nm =>
+              if c == "-" then go fuel r (fun x => if x = nm then none else fs x) (if names.contains nm then names else names ++ [nm]) ("ok" :: out)
+              else match (if c.startsWith "x" then parseHexBytes (c.drop 1).toString else none) with
+                | some b => go fuel r (fs.put nm b) (if names.contains nm then names else names ++ [nm]) ("ok" :: out)
+                | none => none
+            | none => none
+          | "W" :: n :: r =>
+            match parseCodes n, parseVal r with
+            | some nm, some (.j v, r') =>
+              (match writeMd fs nm v with
+               | some fs' => go fuel r' fs' (if names.contains nm then names else names ++ [nm]) ("ok" :: out)
+               | none => go fuel r' fs (if names.contains nm then names else names ++ [nm]) ("E" :: out))
+            | _, _ => none
+          | "L" :: n :: r =>
+            match parseCodes n with
+            | some nm =>
+              go fuel r fs (if names.contains nm then names else names ++ [nm]) ((match loadMd fs nm with | some v => "V " ++ showJ v | none => "E") :: out)
+            | none => none
+          | "S" :: n :: sd :: r =>
+            match parseCodes n, parseHexBytes sd with
+            | some nm, some seed =>
+              (match signFile C fs nm seed with
+               | some fs' => go fuel r fs' (if names.contains nm then names else names ++ [nm]) ("ok" :: out)
+               | none => go fuel r fs (if names.contains nm then names else names ++ [nm]) ("E" :: out))
+            | _, _ => none
+          | _ => none
+      match go (args.length + 1) args (fun _ => none) [] [] with
+      | some (fs, names, out) =>
+        (memo, "F " ++ String.intercalate " | " out ++ " || " ++
+          String.intercalate " " (names.map fun nm => String.intercalate "," (nm.map toString) ++ "=" ++ (match fs nm with | some b => "x" ++ hexStr b | none => "-")))
+      | none => (memo, "X bad-args")
     | "cli" =>
       -- cli verify <trusted bytes | -> <untrusted bytes | ->      cli sign <repodata bytes | -> <key text as s-codes | ->
       let optBytes (t : Tok) : Option (Option Bytes) := if t == "-" then some none else (parseHexBytes t).map some
